@@ -1,0 +1,48 @@
+// Copyright 2026. Contracts for deductive verification (gowp).
+// This file contains only comments; it is compiled only with -tags verif
+// and adds nothing to the package.
+
+//go:build verif
+
+package mathx
+
+// Sign (C08): exact, including NaN. Model xreal (no signed zero).
+//@ func Sign
+//@   model xreal
+//@   ensures [zero] x == 0 ==> result == 0
+//@   ensures [neg]  x < 0 ==> result == -1
+//@   ensures [pos]  x > 0 ==> result == 1
+//@   ensures [nan]  isnan(x) ==> isnan(result)
+//@   assigns nothing
+
+// Restatement for callers in model real (finite x).
+//@ assume func Sign@real
+//@   model real
+//@   trusted restatement for finite x of the contract proved in model xreal
+//@   ensures (x == 0 ==> result == 0) && (x < 0 ==> result == -1) && (x > 0 ==> result == 1)
+//@   assigns nothing
+
+// Choose (C08, C02, C06): guards proved; the value is specified by the opaque
+// function choose(n, k) (the binomial coefficient), see DESIGN A5.
+//@ spec choose(n int, k int) float64
+
+// smallFact is filled by init() with 0!..20! (audited, not proved).
+//@ axiom forall j in 0..21 :: smallFact[j] >= 1
+
+//@ func Choose
+//@   deterministic
+//@   model real
+//@   ensures [edge]  (k == 0 || k == n) ==> result == 1
+//@   ensures [out]   !(k == 0 || k == n) && (k < 0 || n < k) ==> result == 0
+//@   loop 1 (n1) invariant true
+//@   assigns nothing
+
+//@ func Lchoose
+//@   model real
+//@   ensures [edge]  (k == 0 || k == n) ==> result == 0
+//@   ensures [out]   !(k == 0 || k == n) && (k < 0 || n < k) ==> isnan(result)
+//@   assigns nothing
+
+//@ func lchoose
+//@   inline
+//@   assigns nothing
